@@ -115,8 +115,11 @@ def _prune_cache(d, keep, maxn=6):
         ents = [(os.path.getmtime(os.path.join(d, e)), e) for e in os.listdir(d) if e != keep]
         ents.sort()
         import shutil
-        for _, e in ents[:-maxn] if len(ents) > maxn else []:
-            shutil.rmtree(os.path.join(d, e), ignore_errors=True)
+        import time
+        now = time.time()
+        for mt, e in ents[:-maxn] if len(ents) > maxn else []:
+            if now - mt > 900:   # never remove a cache another concurrent check may still be reading
+                shutil.rmtree(os.path.join(d, e), ignore_errors=True)
     except OSError:
         pass
 
